@@ -1,10 +1,11 @@
 import NasdaqModel.Model.GenSoupApp
 /-
-C15 — machine-checked counterexamples on the unchanged generator (known findings, see /verif/fixes/C15-*.md).
-Each witness is a specification that the documentation of the XML format admits, on which
-`gen` followed by the import of the generated module does *not* give the schema the specification denotes.
-`wfSpec` excludes exactly these shapes (second conjunct of each theorem) and nothing else about the witness
-(third conjunct: the same specification without the offending attribute / character is well-formed).
+C15 — the specifications that were counterexamples on the generator before the repairs
+(/repo 5aeb18b array of fixed-length strings, 77e6d60 HTML escaping, 6e4eeaa quote / backslash, 8ed2437 empty record;
+see /verif/fixes/C15-*.md).  They are kept as regressions: each is now well-formed, and `gen` followed by the import of
+the generated module gives exactly the schema the specification denotes (computed here by `decide`, independently of the
+general theorem `C15_gen_denotes`).  The driver prints these specifications (`witness C15`) and the harness runs them on
+the implementation every run.
 -/
 namespace NasdaqModel.Witness.C15
 open NasdaqModel GenSoupApp
@@ -18,49 +19,63 @@ def oneMsg (f : FieldEl) (enums : List EnumEl := []) : Spec :=
 
 /-- `<field name="tags" type="str_ascii_n" length="3" array="true"/>` -/
 def arrayOfFixed : Spec := oneMsg { fld "tags" "str_ascii_n" with length := some (cp "3"), array := some (cp "true") }
-def scalarFixed : Spec := oneMsg { fld "tags" "str_ascii_n" with length := some (cp "3") }
 
-/-- the generated `Array(FixedAsciiString, UnsignedShort)(length=3)` calls an `Array` instance: the import raises `TypeError` -/
-theorem C15_witness_array_of_fixed_string :
-    (gen .itch (cp "app") true arrayOfFixed >>= evalModule) = .error .type
-    ∧ (∃ sch, denote .itch arrayOfFixed = .ok sch)
-    ∧ wfSpec .itch arrayOfFixed = false ∧ wfSpec .itch scalarFixed = true := by
-  refine ⟨by decide, ⟨_, rfl⟩, by decide, by decide⟩
+/-- now generated as `Array(FixedAsciiString(length=3), UnsignedShort)` -/
+theorem C15_regress_array_of_fixed_string :
+    wfSpec .itch arrayOfFixed = true
+    ∧ (gen .itch (cp "app") true arrayOfFixed >>= evalModule) = denote .itch arrayOfFixed
+    ∧ (∃ sch, denote .itch arrayOfFixed = .ok sch
+        ∧ sch.messages.map (fun m => m.fields.map (·.ty))
+          = [[.prim .int4be, .array (.fixed false (some 3)) (.prim .uint2)]]) := by
+  refine ⟨by decide, by decide, ⟨_, rfl, by decide⟩⟩
 
 def sideEnum (c : String) : EnumEl := ⟨cp "Side", some (cp "char_ascii"), [⟨cp "Buy", cp "B"⟩, ⟨cp "Odd", cp c⟩]⟩
 def enumSpec (c : String) : Spec := oneMsg (fld "side" "enum:Side") [sideEnum c]
 
-/-- `<value name="Odd">&lt;</value>`: the member is generated as `Odd = '&lt;'` -/
-theorem C15_witness_html_escaped_enum_value :
-    (gen .ouch (cp "app") true (enumSpec "<") >>= evalModule) ≠ denote .ouch (enumSpec "<")
-    ∧ (∃ sch sch', (gen .ouch (cp "app") true (enumSpec "<") >>= evalModule) = .ok sch ∧ denote .ouch (enumSpec "<") = .ok sch'
-        ∧ sch.enums.map (·.members) = [[(cp "Buy", .str (cp "B")), (cp "Odd", .str (cp "&lt;"))]]
-        ∧ sch'.enums.map (·.members) = [[(cp "Buy", .str (cp "B")), (cp "Odd", .str (cp "<"))]])
-    ∧ wfSpec .ouch (enumSpec "<") = false ∧ wfSpec .ouch (enumSpec "S") = true := by
-  refine ⟨by decide, ⟨_, _, rfl, rfl, by decide, by decide⟩, by decide, by decide⟩
+/-- `<value name="Odd">&lt;</value>`: the member's value is the character `<` -/
+theorem C15_regress_html_enum_value :
+    wfSpec .ouch (enumSpec "<") = true
+    ∧ (gen .ouch (cp "app") true (enumSpec "<") >>= evalModule) = denote .ouch (enumSpec "<")
+    ∧ (∃ sch, (gen .ouch (cp "app") true (enumSpec "<") >>= evalModule) = .ok sch
+        ∧ sch.enums.map (·.members) = [[(cp "Buy", .str (cp "B")), (cp "Odd", .str (cp "<"))]]) := by
+  refine ⟨by decide, by decide, ⟨_, rfl, by decide⟩⟩
 
 def defaultSpec (d : String) : Spec := oneMsg { fld "venue" "str_iso-8859-1" with dflt := some (cp d) }
 
-/-- `default="A&B"`: the field is generated with `default_value='A&amp;B'` -/
-theorem C15_witness_html_escaped_default_value :
-    (gen .sqf (cp "app") true (defaultSpec "A&B") >>= evalModule) ≠ denote .sqf (defaultSpec "A&B")
+/-- `default="A&amp;B"`: the declared default is the text `A&B` -/
+theorem C15_regress_html_default_value :
+    wfSpec .sqf (defaultSpec "A&B") = true
+    ∧ (gen .sqf (cp "app") true (defaultSpec "A&B") >>= evalModule) = denote .sqf (defaultSpec "A&B")
     ∧ (∃ sch, (gen .sqf (cp "app") true (defaultSpec "A&B") >>= evalModule) = .ok sch
-        ∧ sch.messages.map (fun m => m.fields.map (·.dflt)) = [[none, some (.str (cp "A&amp;B"))]])
-    ∧ wfSpec .sqf (defaultSpec "A&B") = false ∧ wfSpec .sqf (defaultSpec "A+B") = true := by
-  refine ⟨by decide, ⟨_, rfl, by decide⟩, by decide, by decide⟩
+        ∧ sch.messages.map (fun m => m.fields.map (·.dflt)) = [[none, some (.str (cp "A&B"))]]) := by
+  refine ⟨by decide, by decide, ⟨_, rfl, by decide⟩⟩
 
-/-- `<value name="Odd">'</value>`: generated as `Odd = '''` — the file does not compile -/
-theorem C15_witness_unescaped_quote :
-    (gen .itch (cp "app") true (enumSpec "'") >>= evalModule) = .error .other
-    ∧ (∃ sch, denote .itch (enumSpec "'") = .ok sch)
-    ∧ wfSpec .itch (enumSpec "'") = false := by
-  refine ⟨by decide, ⟨_, rfl⟩, by decide⟩
+/-- `<value name="Odd">'</value>` is generated as `Odd = '\''` and evaluates to the quote character -/
+theorem C15_regress_quote :
+    wfSpec .itch (enumSpec "'") = true
+    ∧ (gen .itch (cp "app") true (enumSpec "'") >>= evalModule) = denote .itch (enumSpec "'")
+    ∧ (∃ m, gen .itch (cp "app") true (enumSpec "'") = .ok m
+        ∧ m.enums.map (·.members) = [[(cp "Buy", ⟨true, cp "B"⟩), (cp "Odd", ⟨true, cp "\\'"⟩)]]) := by
+  refine ⟨by decide, by decide, ⟨_, rfl, by decide⟩⟩
 
-/-- a backslash ends the literal's closing quote: `Odd = '\'` -/
-theorem C15_witness_unescaped_backslash :
-    (gen .itch (cp "app") true (enumSpec "\\") >>= evalModule) = .error .other
-    ∧ (∃ sch, denote .itch (enumSpec "\\") = .ok sch)
-    ∧ wfSpec .itch (enumSpec "\\") = false := by
-  refine ⟨by decide, ⟨_, rfl⟩, by decide⟩
+/-- a backslash is generated as `Odd = '\\'` -/
+theorem C15_regress_backslash :
+    wfSpec .itch (enumSpec "\\") = true
+    ∧ (gen .itch (cp "app") true (enumSpec "\\") >>= evalModule) = denote .itch (enumSpec "\\")
+    ∧ (∃ sch, denote .itch (enumSpec "\\") = .ok sch
+        ∧ sch.enums.map (·.members) = [[(cp "Buy", .str (cp "B")), (cp "Odd", .str [92])]]) := by
+  refine ⟨by decide, by decide, ⟨_, rfl, by decide⟩⟩
+
+/-- a message and a record without fields -/
+def emptyFields : Spec :=
+  { enums := [], fielddefs := [], records := [⟨cp "Nothing", []⟩],
+    messages := [⟨cp "EndOfSnapshot", cp "G", none, some (cp "outgoing"), []⟩,
+                 ⟨cp "Holder", cp "72", none, some (cp "outgoing"),
+                   [{ fld "nones" "record:Nothing" with array := some (cp "true"), endian := some (cp "big") }]⟩] }
+
+theorem C15_regress_empty_fields :
+    wfSpec .sqf emptyFields = true
+    ∧ (gen .sqf (cp "app") true emptyFields >>= evalModule) = denote .sqf emptyFields := by
+  refine ⟨by decide, by decide⟩
 
 end NasdaqModel.Witness.C15
